@@ -159,6 +159,83 @@ def run_case(ctx, model, env, orc, name, e, stream):
     return False
 
 
+
+def jit_history(ctx, env):
+    """operator objects reused across a jit boundary: the FIRST mixed expression with the pair (A, B) is formed
+    and evaluated inside jax.jit, later expressions with the SAME objects are evaluated eagerly - every one must
+    denote the same construction on the operands' matrices (state cached on an operator during tracing must
+    not leak)"""
+    import jax
+
+    rng = ctx.rng
+    sq = [3]
+    bad = 0
+    firsts = ("sid", "ident", "diag", "mat") if not ctx.thorough else tuple(c for c in T.CLASSES if c != "nonlin")
+    for ca in firsts:
+        for cb in T.CLASSES:
+            if cb == "nonlin":
+                continue
+            for dt in (("float64",) if not ctx.thorough else ("float64", "complex128")):
+                ea, eb = T.leaf(rng, ca, sq, sq, lambda: dt), T.leaf(rng, cb, sq, sq, lambda: dt)
+                if ea is None or eb is None:
+                    continue
+                ctx.case({"jit-history": [ca, cb, dt]}, ("jit-history", ca, cb, dt), sample_every=40)
+                ctx.count("jit-history:cases")
+                Da, Db = G.np_den(ea), G.np_den(eb)
+                x = T.vals(rng, (3,), G.is_cplx(dt)).astype(np.complex128)
+                xa = env.to_array(x, sq, dt)
+                fail = None
+                steps = (("(A - B)(x)", lambda A, B: (A - B)(xa), Da - Db), ("(B - A)(x)", lambda A, B: (B - A)(xa), Db - Da),
+                         ("(A @ B)(x)", lambda A, B: (A @ B)(xa), Da @ Db), ("(B @ A)(x)", lambda A, B: (B @ A)(xa), Db @ Da),
+                         ("(A + B).H(x)", lambda A, B: (A + B).H(xa), (Da + Db).conj().T), ("(2.0 * A)(x)", lambda A, B: (2.0 * A)(xa), 2.0 * Da))
+
+                # the same expressions on a second, freshly built pair evaluated eagerly only: a combination that scico
+                # rejects anyway (e.g. diagonals of different shapes) is not a step of the history
+                try:
+                    A2, B2 = env.build(ea), env.build(eb)
+                except Exception:  # noqa: BLE001
+                    continue
+
+                def fresh_ok(f):
+                    try:
+                        f(A2, B2)
+                        return True
+                    except Exception:  # noqa: BLE001
+                        return False
+
+                if not fresh_ok(lambda A, B: (A + B)(xa)):
+                    ctx.count("jit-history:combination rejected")
+                    continue
+                try:
+                    A, B = env.build(ea), env.build(eb)  # built once, reused below
+                    y = env.flat(jax.jit(lambda v, A=A, B=B: (A + B)(v))(xa))
+                    if not G.vec_close(y, (Da + Db) @ x, 1e-9, 9):
+                        fail = {"step": "jit(lambda v: (A + B)(v))(x)", "returned": [str(complex(z)) for z in y], "construction": [str(complex(z)) for z in (Da + Db) @ x]}
+                except Exception as ex:  # noqa: BLE001
+                    fail = {"step": "jit(lambda v: (A + B)(v))(x)", "raised": repr(ex)[:200]}
+                if fail is None:
+                    for nm, f, W in steps:
+                        if not fresh_ok(f):
+                            continue
+                        try:
+                            y = env.flat(f(A, B))
+                        except Exception as ex:  # noqa: BLE001
+                            fail = {"step": "then eagerly " + nm, "raised": repr(ex)[:200], "same_expression_on_fresh_operands": "evaluates"}
+                            break
+                        if not G.vec_close(y, W @ x, 1e-9, 9):
+                            fail = {"step": "then eagerly " + nm, "returned": [str(complex(z)) for z in y], "construction": [str(complex(z)) for z in W @ x]}
+                            break
+                if fail:
+                    fail.update({"A": G.skeleton(ea), "B": G.skeleton(eb), "x": [str(complex(z)) for z in x],
+                                 "history": "A, B built once; first evaluated inside jax.jit as (A + B)(x)"})
+                    ctx.disagree("opalg.jit-history", {"a": ea, "b": eb, "dt": dt}, _js(fail), "same construction on the operands' matrices at every step",
+                                 oracle=lambda c, fail=fail: _js(fail))
+                    bad += 1
+                    if bad >= 3:
+                        return
+        jax.clear_caches()
+
+
 def _js(v):
     return json.loads(json.dumps(v, default=str))
 
@@ -202,6 +279,8 @@ def correspond(ctx, model):
     S.model_tie(ctx, env, model, ctx.n(40, 1200))
     # freeze / Function.slice / Function.join with the Lean model
     S.freeze_tie(ctx, env, model, ctx.n(60, 1500))
+    # histories: the same operator objects used first inside jit, then eagerly
+    jit_history(ctx, env)
     # random trees
     n = ctx.n(200, 5000)
     dmax = ctx.n(4, 7)
